@@ -228,6 +228,16 @@ def split_tuple_lets(body):
                     else:
                         new.append({"k": "let", "pat": q, "init": e, "els": None, "line": s.get("line")})
                 n += 1
+            elif (s.get("k") == "let" and s.get("els") is None and s["pat"].get("k") == "struct" and init is not None and init.get("k") == "struct"
+                  and s["pat"].get("fs") and all(q.get("k") in ("bind", "wild") for _, q in s["pat"]["fs"])
+                  and {a_ for a_, _ in s["pat"]["fs"]} <= {a_ for a_, _ in init.get("fs", [])} and not init.get("base")
+                  and (str(init.get("path", "")).rsplit("::", 1)[-1] == str(s["pat"].get("path", "")).rsplit("::", 1)[-1] or str(init.get("path", "")).startswith("Self"))):
+                # `let S { a, b } = S { a: e1, b: e2 };`  ->  one `let` per field, in the literal's evaluation order
+                want = dict((a_, q) for a_, q in s["pat"]["fs"])
+                for a_, e in init["fs"]:
+                    q = want.get(a_, {"k": "wild"})
+                    new.append({"k": "let", "pat": q if q.get("k") == "bind" else {"k": "wild"}, "init": e, "els": None, "line": s.get("line")})
+                n += 1
             else:
                 new.append(s)
         b["stmts"] = new
@@ -248,8 +258,8 @@ def inline_local_closures(fn, counter):
                     and "Mut)" not in str(s["pat"].get("mode"))):
                 continue
             init = s["init"]
-            while init.get("k") == "blk" and not init["b"]["stmts"] and init["b"]["tail"] is not None:
-                init = init["b"]["tail"]
+            while (init.get("k") == "blk" and not init["b"]["stmts"] and init["b"]["tail"] is not None) or (init.get("k") == "ref" and isinstance(init.get("x"), dict)):
+                init = init["b"]["tail"] if init.get("k") == "blk" else init["x"]      # a reference to a callable is called like the callable
             if init.get("k") == "path" and isinstance(init.get("def"), str) and "::" in init["def"]:
                 # `let f = f32::tanh; .. f(a) ..`  ->  `.. a.tanh() ..`   (a function item bound to a local and only ever called)
                 hid = s["pat"]["hid"]
@@ -526,13 +536,25 @@ def _pure_place_idx(n, depth=0):
     if k == "field":
         return _pure_place_idx(n["b"], depth + 1)
     if k == "index":
-        return _pure_place_idx(n["b"], depth + 1) and _pure_place_idx(n["i"], depth + 1)
+        return _pure_place_idx(n["b"], depth + 1) and (_pure_place_idx(n["i"], depth + 1) or _index_arith(n["i"]))
     if k == "ref":
         return _pure_place_idx(n["x"], depth + 1)
     if k == "un" and n.get("op") == "Deref":
         return _pure_place_idx(n["x"], depth + 1)
     if k == "blk" and not n["b"]["stmts"] and n["b"]["tail"] is not None:
         return _pure_place_idx(n["b"]["tail"], depth + 1)
+    return False
+
+
+def _index_arith(n, depth=0):
+    """`j + 1`, `i * n + k`: integer arithmetic over locals and literals"""
+    n = _unblk(n)
+    if n is None or depth > 4:
+        return False
+    if n.get("k") in ("local", "lit"):
+        return True
+    if n.get("k") == "bin" and n.get("op") in ("Add", "Sub", "Mul"):
+        return _index_arith(n["l"], depth + 1) and _index_arith(n["r"], depth + 1)
     return False
 
 
@@ -952,6 +974,19 @@ def option_combinators(fn):
                 i0 = _unblk(a0["recv"])
                 if i0 is not None and i0.get("k") == "mcall" and i0["name"] == "iter" and str(i0.get("callee", "")).startswith(OPT) and _pure_place(i0["recv"]):
                     src = i0["recv"]
+            elif a0 is not None and _pure_place(a0) and a0.get("k") in ("local", "field"):
+                # `v.extend(opt)` - an Option handed over by value yields its payload, if any
+                tyi = a0.get("t")
+                if tyi is not None and _TYPES[0] and tyi < len(_TYPES[0]) and _TYPES[0][tyi].startswith("std::option::Option<") and _pure_place(x["recv"]):
+                    _UW[0] += 1
+                    vh = 9700000 + _UW[0]
+                    line = x.get("line")
+                    nm = "_ex%d" % _UW[0]
+                    vb = {"k": "bind", "name": nm, "hid": vh, "mode": "BindingMode(No, Not)", "t": None}
+                    push = {"k": "mcall", "name": "push", "callee": "std::vec::Vec::<T, A>::push", "recv": x["recv"], "args": [{"k": "local", "name": nm, "hid": vh, "line": line}], "line": line}
+                    n += 1
+                    return {"k": "if", "c": {"k": "letx", "pat": {"k": "tstruct", "path": "std::prelude::v1::Some", "ps": [vb]}, "init": x["args"][0], "line": line},
+                            "th": {"k": "blk", "b": {"k": "block", "stmts": [push], "tail": None}, "line": line}, "el": None, "line": line, "from_option_combinator": "extend"}
             elif a0 is not None and a0.get("k") == "mcall" and a0["name"] == "clone" and not a0["args"] and _pure_place(a0["recv"]):
                 r0 = _unblk(a0["recv"])
                 while r0 is not None and r0.get("k") == "ref":
@@ -997,6 +1032,23 @@ def option_combinators(fn):
                  "arms": [{"pat": {"k": "tstruct", "path": "std::prelude::v1::Some", "ps": [bind]}, "guard": None,
                            "body": {"k": "local", "name": "_uw%d" % _UW[0], "hid": vh, "t": x.get("t"), "line": line}},
                           {"pat": {"k": "ppath", "path": "std::prelude::v1::None"}, "guard": None, "body": args[0]}]}
+            for key in ("t", "ta", "id"):
+                if key in x:
+                    m[key] = x[key]
+            n += 1
+            return m
+        elif name == "unwrap_or_else" and len(args) == 1:
+            cl0 = _unblk(args[0])
+            if cl0 is None or cl0.get("k") != "closure" or cl0.get("params") or any(y.get("k") == "ret" for y in _walk(cl0["body"])):
+                return x
+            _UW[0] += 1
+            vh = 9700000 + _UW[0]
+            line = x.get("line")
+            bind = {"k": "bind", "name": "_uw%d" % _UW[0], "hid": vh, "mode": "BindingMode(No, Not)", "t": x.get("t")}
+            m = {"k": "match", "scrut": x["recv"], "src": "Normal", "line": line, "from_option_combinator": name,
+                 "arms": [{"pat": {"k": "tstruct", "path": "std::prelude::v1::Some", "ps": [bind]}, "guard": None,
+                           "body": {"k": "local", "name": "_uw%d" % _UW[0], "hid": vh, "t": x.get("t"), "line": line}},
+                          {"pat": {"k": "ppath", "path": "std::prelude::v1::None"}, "guard": None, "body": cl0["body"]}]}
             for key in ("t", "ta", "id"):
                 if key in x:
                     m[key] = x[key]
@@ -1135,6 +1187,21 @@ def move_aliases(fn):
         while i < len(b["stmts"]):
             s = b["stmts"][i]
             init = _unblk(s.get("init")) if s.get("k") == "let" else None
+            if (s.get("k") == "let" and not s.get("els") and s["pat"].get("k") == "bind" and not s["pat"].get("sub") and init is not None and init.get("k") == "ref"
+                    and not init.get("mut") and _unblk(init["x"]) is not None and _unblk(init["x"]).get("k") == "local" and str(s["pat"].get("mode")).endswith("No, Not)")
+                    and _unblk(init["x"])["hid"] != s["pat"]["hid"]):
+                # `let a = &b;`: while the shared borrow lives nothing can change b, so every use of a is a use of b
+                src_n = _unblk(init["x"])
+                dst = s["pat"]["hid"]
+                later = b["stmts"][i + 1:] + ([b["tail"]] if b.get("tail") is not None else [])
+                for x in later:
+                    for y in _walk(x):
+                        if y.get("k") == "local" and y.get("hid") == dst:
+                            y["hid"] = src_n["hid"]
+                            y["name"] = src_n["name"]
+                del b["stmts"][i]
+                n += 1
+                continue
             if (s.get("k") == "let" and not s.get("els") and s["pat"].get("k") == "bind" and not s["pat"].get("sub") and init is not None and init.get("k") == "local"
                     and "Ref" not in str(s["pat"].get("mode")) and s.get("from_alias") is None):
                 src = init["hid"]
@@ -1539,7 +1606,10 @@ def mut_ref_aliases(fn):
                 i += 1
                 continue
             place = _unblk(init["x"])
-            if not _pure_place_idx(place) or place.get("k") not in ("index", "field"):
+            if not _pure_place_idx(place) or place.get("k") not in ("index", "field", "local"):
+                i += 1
+                continue
+            if place.get("k") == "local" and place["hid"] == s["pat"]["hid"]:
                 i += 1
                 continue
             xh = s["pat"]["hid"]
@@ -2374,8 +2444,18 @@ def swap_sequences(fn):
 
 
 def inclusive_ranges(fn):
-    """D27  `a..=b`  ->  `a..b + 1`   (the same positions in the same order; `b + 1` cannot overflow for an index that is in range)"""
+    """D27  `a..=b`  ->  `a..b + 1`   (the same positions in the same order; `b + 1` cannot overflow for an index that is in range);
+            `X[..]`  ->  `X`          (the full-range slice of a vector / slice is the same sequence)"""
     n = 0
+    for x in _walk(fn.get("body")):
+        if x.get("k") == "index" and isinstance(x.get("i"), dict) and _unblk(x["i"]) is not None and _unblk(x["i"]).get("k") == "struct" \
+                and str(_unblk(x["i"]).get("path", "")).endswith("RangeFull") and isinstance(x.get("b"), dict):
+            b = x["b"]
+            keep = {k_: x[k_] for k_ in ("line",) if k_ in x}
+            x.clear()
+            x.update(b)
+            x.update(keep)
+            n += 1
     for x in _walk(fn.get("body")):
         if x.get("k") == "call" and str(x.get("callee", "")).endswith("RangeInclusive::<Idx>::new") and len(x.get("args") or []) == 2:
             a, b = x["args"]
@@ -2389,6 +2469,366 @@ def inclusive_ranges(fn):
             x.clear()
             x.update({"k": "struct", "path": "std::ops::Range", "mac": "Desugaring(RangeExpr)", "fs": [["start", a], ["end", end]], **keep})
             n += 1
+    return n
+
+
+def while_let_next(fn):
+    """D29  `let mut it = ITER; while let Some(P) = it.next() { body }`  ->  `for P in ITER { body }`      (it used nowhere else)
+       D30  `let mut c = 0; for P in ITER { body; c += 1; }`             ->  `for (c, P) in ITER.enumerate() { body }`
+            (c assigned nowhere else, no `continue` of this loop in the body, c dead after the loop)."""
+    n = 0
+    for blkn in list(_walk(fn.get("body"))):
+        if blkn.get("k") != "block":
+            continue
+        changed = True
+        while changed:
+            changed = False
+            stmts = blkn["stmts"]
+            items = list(stmts) + ([blkn["tail"]] if blkn.get("tail") is not None else [])
+            for b, lp0 in enumerate(items):
+                lp = _unblk(lp0)
+                if lp is None:
+                    continue
+                if lp.get("k") == "loop":
+                    bd = lp["body"]
+                    bd = bd["b"] if bd.get("k") == "blk" else bd
+                    if bd.get("k") != "block" or bd["stmts"] or bd.get("tail") is None or bd["tail"].get("k") != "if":
+                        continue
+                    iff = bd["tail"]
+                    c = _unblk(iff["c"])
+                    if c is None or c.get("k") != "letx":
+                        continue
+                    pat = c["pat"]
+                    while pat.get("k") in ("ref", "deref"):
+                        pat = pat["p"]
+                    init = _unblk(c["init"])
+                    if not (pat.get("k") == "tstruct" and pat["path"].endswith("::Some") and len(pat["ps"]) == 1 and init is not None and init.get("k") == "mcall"
+                            and init["name"] == "next" and not init["args"] and _unblk(init["recv"]) is not None and _unblk(init["recv"]).get("k") in ("local", "ref")):
+                        continue
+                    r0 = _unblk(init["recv"])
+                    while r0 is not None and r0.get("k") == "ref":
+                        r0 = _unblk(r0["x"])
+                    if r0 is None or r0.get("k") != "local":
+                        continue
+                    ih = r0["hid"]
+                    el = iff.get("el")
+                    e0 = el
+                    while e0 is not None and e0.get("k") == "blk" and len(e0["b"]["stmts"]) + (1 if e0["b"].get("tail") is not None else 0) == 1:
+                        e0 = e0["b"]["stmts"][0] if e0["b"]["stmts"] else e0["b"]["tail"]
+                    if e0 is None or e0.get("k") != "break" or e0.get("v") is not None:
+                        continue
+                    if _mentions(iff["th"], ih):
+                        continue
+                    a = None
+                    for j in range(b - 1, -1, -1):
+                        s_ = items[j]
+                        if s_.get("k") == "let" and s_["pat"].get("k") == "bind" and s_["pat"]["hid"] == ih and s_.get("init") is not None and not s_.get("els"):
+                            a = j
+                            break
+                        if _mentions(s_, ih):
+                            break
+                    if a is None or any(_mentions(s_, ih) for s_ in items[b + 1:]):
+                        continue
+                    # what lies between the declaration and the loop must not touch what the iterator borrows: only plain lets of literals are accepted
+                    if any(not (s_.get("k") == "let" and _unblk(s_.get("init")) is not None and _unblk(s_["init"]).get("k") == "lit") for s_ in items[a + 1:b]):
+                        continue
+                    newlp = {"k": "for", "pat": pat["ps"][0], "iter": items[a]["init"], "body": iff["th"], "loop_id": lp.get("loop_id"), "line": lp.get("line"), "from_while_let": True}
+                    if "id" in lp:
+                        newlp["id"] = lp["id"]
+                    if b < len(stmts):
+                        stmts[b] = newlp
+                    else:
+                        blkn["tail"] = None
+                        stmts.append(newlp)
+                    del stmts[a]
+                    n += 1
+                    changed = True
+                    break
+                if lp.get("k") == "for" and not lp.get("counter_done"):
+                    body = lp["body"]
+                    bb = body["b"] if body.get("k") == "blk" else None
+                    if bb is None or bb.get("tail") is not None and False:
+                        continue
+                    its = list(bb["stmts"]) + ([bb["tail"]] if bb.get("tail") is not None else [])
+                    if not its:
+                        continue
+                    last = _unblk(its[-1])
+                    if not (last is not None and last.get("k") == "assignop" and str(last.get("op", "")).startswith("Add") and _unblk(last["l"]).get("k") == "local"
+                            and _unblk(last["r"]).get("k") == "lit" and str(_unblk(last["r"]).get("v")).replace("usize", "").rstrip("_") == "1"):
+                        continue
+                    ch = _unblk(last["l"])["hid"]
+                    rest = its[:-1]
+                    if any(y.get("k") in ("assign", "assignop") and _unblk(y["l"]) is not None and _unblk(y["l"]).get("k") == "local" and _unblk(y["l"])["hid"] == ch for x in rest for y in _walk(x)):
+                        continue
+                    lid = lp.get("loop_id")
+                    if any(y.get("k") == "continue" and y.get("label") in (lid, None) for x in rest for y in _walk(x)):
+                        continue
+                    if any(y.get("k") == "ref" and y.get("mut") and _unblk(y["x"]) is not None and _unblk(y["x"]).get("k") == "local" and _unblk(y["x"])["hid"] == ch
+                           for x in rest for y in _walk(x)):
+                        continue
+                    a = None
+                    for j in range(b - 1, -1, -1):
+                        s_ = items[j]
+                        if s_.get("k") == "let" and s_["pat"].get("k") == "bind" and s_["pat"]["hid"] == ch and s_.get("init") is not None and not s_.get("els"):
+                            a = j
+                            break
+                        if _mentions(s_, ch):
+                            break
+                    if a is None or any(_mentions(s_, ch) for s_ in items[b + 1:]) or _mentions(lp["iter"], ch):
+                        continue
+                    i0 = _unblk(items[a]["init"])
+                    if i0.get("k") != "lit" or str(i0.get("v")).replace("usize", "").rstrip("_") != "0":
+                        continue
+                    line = lp.get("line")
+                    cpat = dict(items[a]["pat"])
+                    cpat["mode"] = "BindingMode(No, Not)"
+                    lp["pat"] = {"k": "tuple", "ps": [cpat, lp["pat"]]}
+                    lp["iter"] = {"k": "mcall", "name": "enumerate", "callee": "std::iter::Iterator::enumerate", "recv": lp["iter"], "args": [], "line": line}
+                    bb["stmts"] = rest
+                    bb["tail"] = None
+                    lp["counter_done"] = True
+                    del stmts[a]
+                    n += 1
+                    changed = True
+                    break
+    return n
+
+
+_FOLD = [0]
+
+
+def tuple_folds(fn):
+    """D31  `let (p0, p1, ..) = ITER.fold((e0, e1, ..), |(a0, a1, ..), X| { body; (r0, r1, ..) });`  ->
+                let mut a0 = e0; let mut a1 = e1; ..; for X in ITER { body; a0 = r0; a1 = r1; .. }; let (p0, p1, ..) = (a0, a1, ..);
+    when every r_i is a_i itself (then nothing is assigned) or mentions no other accumulator component, and every `return (s0, s1, ..)` inside
+    the closure is likewise a tuple (it becomes the assignments followed by `continue`).  The fold's definition, with the tuple kept in its
+    components."""
+    n = 0
+    for blkn in list(_walk(fn.get("body"))):
+        if blkn.get("k") != "block":
+            continue
+        out = []
+        for st in blkn["stmts"]:
+            done = False
+            init = _unblk(st.get("init")) if st.get("k") == "let" and not st.get("els") else None
+            if init is not None and init.get("k") == "mcall" and init.get("name") == "fold" and len(init.get("args") or []) == 2:
+                seed, cl = _unblk(init["args"][0]), _unblk(init["args"][1])
+                if (seed is not None and seed.get("k") == "tup" and len(seed["xs"]) >= 2 and cl is not None and cl.get("k") == "closure" and len(cl.get("params") or []) == 2):
+                    ap = cl["params"][0]
+                    while ap.get("k") in ("ref", "deref"):
+                        ap = ap["p"]
+                    if ap.get("k") == "tuple" and len(ap["ps"]) == len(seed["xs"]) and all(q.get("k") == "bind" and not q.get("sub") for q in ap["ps"]):
+                        accs = [q["hid"] for q in ap["ps"]]
+                        body = cl["body"]
+                        bb = body["b"] if body.get("k") == "blk" and body.get("lbl") is None else {"k": "block", "stmts": [], "tail": body}
+                        tail = _unblk(bb.get("tail"))
+                        _FOLD[0] += 1
+                        lid = 9800000 + _FOLD[0]
+                        line = st.get("line")
+
+                        def assigns(tup):
+                            """tuple literal of new component values -> assignment statements, or None"""
+                            if tup is None or tup.get("k") != "tup" or len(tup["xs"]) != len(accs):
+                                return None
+                            res = []
+                            for i_, r in enumerate(tup["xs"]):
+                                r0 = _unblk(r)
+                                if r0 is not None and r0.get("k") == "local" and r0["hid"] == accs[i_]:
+                                    continue
+                                if any(y.get("k") == "local" and y.get("hid") in accs and y["hid"] != accs[i_] for y in _walk(r)):
+                                    return None
+                                q = ap["ps"][i_]
+                                res.append({"k": "assign", "l": {"k": "local", "name": q["name"], "hid": q["hid"], "t": q.get("t"), "line": line}, "r": r, "line": r.get("line", line)})
+                            return res
+                        ok = True
+                        fin = assigns(tail)
+                        if fin is None:
+                            ok = False
+                        stmts2 = copy.deepcopy(bb["stmts"]) if ok else []
+
+                        def fix(x):
+                            nonlocal ok
+                            if isinstance(x, list):
+                                return [fix(v) for v in x]
+                            if not isinstance(x, dict):
+                                return x
+                            if x.get("k") == "closure":
+                                return x
+                            if x.get("k") == "ret":
+                                a_ = assigns(_unblk(x.get("v")))
+                                if a_ is None:
+                                    ok = False
+                                    return x
+                                return {"k": "blk", "b": {"k": "block", "stmts": a_ + [{"k": "continue", "label": lid, "line": x.get("line")}], "tail": None}, "line": x.get("line")}
+                            for k_, v in list(x.items()):
+                                if isinstance(v, (dict, list)):
+                                    x[k_] = fix(v)
+                            return x
+                        if ok:
+                            stmts2 = fix(stmts2)
+                        if ok:
+                            for q, e0 in zip(ap["ps"], seed["xs"]):
+                                out.append({"k": "let", "pat": {**q, "mode": "BindingMode(No, Mut)"}, "init": e0, "els": None, "line": line})
+                            lp = {"k": "for", "pat": cl["params"][1], "iter": init["recv"], "loop_id": lid, "line": line, "from_fold": True,
+                                  "body": {"k": "blk", "b": {"k": "block", "stmts": stmts2 + copy.deepcopy(fin), "tail": None}, "line": line}}
+                            out.append(lp)
+                            vals = {"k": "tup", "xs": [{"k": "local", "name": q["name"], "hid": q["hid"], "t": q.get("t"), "line": line} for q in ap["ps"]], "line": line}
+                            out.append({**st, "init": vals})
+                            n += 1
+                            done = True
+            if not done:
+                out.append(st)
+        blkn["stmts"] = out
+    return n
+
+
+def reduce_to_max_by(fn):
+    """D32  `ITER.reduce(|p, q| { lets..; match CMP { Greater => p, Less | Equal => q } })`  ->  `ITER.max_by(|p, q| { lets..; CMP })`
+    (and `Less => p, _ => q` -> min_by): the definitions of Iterator::max_by / min_by (std: `reduce(|x, y| match compare(&x, &y) { Greater => x, _ => y })`)."""
+    n = 0
+    for x in _walk(fn.get("body")):
+        if x.get("k") != "mcall" or x.get("name") != "reduce" or len(x.get("args") or []) != 1:
+            continue
+        cl = _unblk(x["args"][0])
+        if cl is None or cl.get("k") != "closure" or len(cl.get("params") or []) != 2:
+            continue
+        ps = []
+        for p_ in cl["params"]:
+            q = p_
+            while q.get("k") in ("ref", "deref"):
+                q = q["p"]
+            ps.append(q if q.get("k") == "bind" and not q.get("sub") else None)
+        if None in ps:
+            continue
+        body = cl["body"]
+        bb = body["b"] if body.get("k") == "blk" and body.get("lbl") is None else None
+        m = _unblk(bb["tail"]) if bb is not None and bb.get("tail") is not None else _unblk(body)
+        if m is None or m.get("k") != "match" or any(a.get("guard") is not None for a in m["arms"]):
+            continue
+        if bb is not None and not all(s_.get("k") == "let" for s_ in bb["stmts"]):
+            continue
+        keep = {"Greater": None, "Less": None, "Equal": None}
+        ok = True
+        for a in m["arms"]:
+            b0 = _unblk(a["body"])
+            who = 0 if (b0 is not None and b0.get("k") == "local" and b0["hid"] == ps[0]["hid"]) else (1 if (b0 is not None and b0.get("k") == "local" and b0["hid"] == ps[1]["hid"]) else None)
+            if who is None:
+                ok = False
+                break
+            pats = a["pat"]["ps"] if a["pat"].get("k") == "or" else [a["pat"]]
+            for q in pats:
+                if q.get("k") == "wild":
+                    for k_ in keep:
+                        if keep[k_] is None:
+                            keep[k_] = who
+                elif q.get("k") == "ppath" and q["path"].rsplit("::", 1)[-1] in keep:
+                    k_ = q["path"].rsplit("::", 1)[-1]
+                    if keep[k_] is None:
+                        keep[k_] = who
+                else:
+                    ok = False
+        if not ok or None in keep.values():
+            continue
+        if keep == {"Greater": 0, "Less": 1, "Equal": 1}:
+            name = "max_by"
+        elif keep == {"Less": 0, "Greater": 1, "Equal": 1}:
+            name = "min_by"        # std: min_by keeps the first of equal minima: `Greater => y, _ => x`
+            continue
+        else:
+            continue
+        scr = m["scrut"]
+        if bb is not None:
+            bb["tail"] = scr
+        else:
+            cl["body"] = scr
+        x["name"] = name
+        x["callee"] = "std::iter::Iterator::" + name
+        x["from_reduce"] = True
+        n += 1
+    return n
+
+
+def partial_cmp_match(fn):
+    """D33  `match a.partial_cmp(b) { Some(Greater) => X, _ => Y }`  ->  `if a > b { X } else { Y }`   (Less: `<`, Equal: `==`);
+    an incomparable pair (NaN) yields None and takes the `_` arm, exactly as the comparison is false."""
+    n = 0
+    OPS = {"Greater": "Gt", "Less": "Lt", "Equal": "Eq"}
+
+    def rewrite(x):
+        nonlocal n
+        if isinstance(x, list):
+            return [rewrite(v) for v in x]
+        if not isinstance(x, dict):
+            return x
+        for k_, v in list(x.items()):
+            if isinstance(v, (dict, list)):
+                x[k_] = rewrite(v)
+        if x.get("k") != "match" or len(x["arms"]) != 2 or any(a.get("guard") is not None for a in x["arms"]):
+            return x
+        scr = _unblk(x["scrut"])
+        if scr is None or scr.get("k") != "mcall" or scr.get("name") != "partial_cmp" or len(scr["args"]) != 1:
+            return x
+        p0 = x["arms"][0]["pat"]
+        while p0.get("k") in ("ref", "deref"):
+            p0 = p0["p"]
+        p1 = x["arms"][1]["pat"]
+        if not (p0.get("k") == "tstruct" and p0["path"].endswith("::Some") and len(p0["ps"]) == 1 and p0["ps"][0].get("k") == "ppath"
+                and p0["ps"][0]["path"].rsplit("::", 1)[-1] in OPS and p1.get("k") == "wild"):
+            return x
+        rhs = _unblk(scr["args"][0])
+        while rhs is not None and rhs.get("k") == "ref":
+            rhs = _unblk(rhs["x"])
+        lhs = _unblk(scr["recv"])
+        while lhs is not None and lhs.get("k") == "ref":
+            lhs = _unblk(lhs["x"])
+        if lhs is None or rhs is None or not _pure_expr(lhs) or not _pure_expr(rhs):
+            return x
+        line = x.get("line")
+        blk = lambda e: e if e.get("k") == "blk" else {"k": "blk", "b": {"k": "block", "stmts": [], "tail": e}, "line": e.get("line"), **({"t": e["t"]} if "t" in e else {})}
+        out = {"k": "if", "c": {"k": "bin", "op": OPS[p0["ps"][0]["path"].rsplit("::", 1)[-1]], "l": lhs, "r": rhs, "line": line},
+               "th": blk(x["arms"][0]["body"]), "el": blk(x["arms"][1]["body"]), "line": line, "from_partial_cmp": True}
+        for key in ("t", "ta"):
+            if key in x:
+                out[key] = x[key]
+        n += 1
+        return out
+    if fn.get("body") is not None:
+        fn["body"] = rewrite(fn["body"])
+    return n
+
+
+def eta_reduce(fn):
+    """D34  `|a, b| a.max(b)` (also with `&` patterns / derefs) as the argument of `fold`  ->  the function item `f32::max`
+    (a closure that only forwards its parameters, in order, to an inherent float method is that method)."""
+    n = 0
+    for x in _walk(fn.get("body")):
+        if x.get("k") != "mcall" or x.get("name") != "fold" or len(x.get("args") or []) != 2:
+            continue
+        cl = _unblk(x["args"][1])
+        if cl is None or cl.get("k") != "closure" or len(cl.get("params") or []) != 2:
+            continue
+        hs = []
+        for p_ in cl["params"]:
+            q = p_
+            while q.get("k") in ("ref", "deref"):
+                q = q["p"]
+            hs.append(q["hid"] if q.get("k") == "bind" and not q.get("sub") else None)
+        if None in hs:
+            continue
+        b = _unblk(cl["body"])
+        if b is None or b.get("k") != "mcall" or len(b.get("args") or []) != 1 or not any(m_ in str(b.get("callee", "")) for m_ in ("<impl f32>::", "<impl f64>::")):
+            continue
+
+        def base(e):
+            e = _unblk(e)
+            while e is not None and (e.get("k") == "ref" or (e.get("k") == "un" and e.get("op") == "Deref")):
+                e = _unblk(e["x"])
+            return e
+        r, a = base(b["recv"]), base(b["args"][0])
+        if r is None or a is None or r.get("k") != "local" or a.get("k") != "local" or [r["hid"], a["hid"]] != hs:
+            continue
+        x["args"][1] = {"k": "path", "def": b["callee"], "line": cl.get("line"), "from_eta": True}
+        n += 1
     return n
 
 
@@ -2484,6 +2924,10 @@ def run(facts):
         counts["range_for_each"] = counts.get("range_for_each", 0) + range_for_each(fn)
         counts["compound_assignments"] = counts.get("compound_assignments", 0) + compound_assignments(fn)
         counts["mut_ref_aliases"] = counts.get("mut_ref_aliases", 0) + mut_ref_aliases(fn)
+        counts["eta_reduced"] = counts.get("eta_reduced", 0) + eta_reduce(fn)
+        counts["partial_cmp_matches"] = counts.get("partial_cmp_matches", 0) + partial_cmp_match(fn)
+        counts["reduce_max_by"] = counts.get("reduce_max_by", 0) + reduce_to_max_by(fn)
+        counts["tuple_folds"] = counts.get("tuple_folds", 0) + tuple_folds(fn)
         counts["inclusive_ranges"] = counts.get("inclusive_ranges", 0) + inclusive_ranges(fn)
         counts["mem_replace"] = counts.get("mem_replace", 0) + mem_replace(fn)
         counts["swap_sequences"] = counts.get("swap_sequences", 0) + swap_sequences(fn)
@@ -2492,6 +2936,7 @@ def run(facts):
         counts["bool_matches"] = counts.get("bool_matches", 0) + bool_match_to_if(fn)
         counts["loop_break_values"] = counts.get("loop_break_values", 0) + loop_break_value(fn)
         counts["while_loops"] = counts.get("while_loops", 0) + while_to_for(fn, facts["types"])
+        counts["while_let_next"] = counts.get("while_let_next", 0) + while_let_next(fn)
         _TYPES[0] = facts.get("types")
         counts["option_combinators"] = counts.get("option_combinators", 0) + option_combinators(fn)
         counts["let_else"] += let_else_to_match(fn["body"])
@@ -2503,7 +2948,12 @@ def run(facts):
         counts["move_aliases"] = counts.get("move_aliases", 0) + move_aliases(fn)
         counts["mut_ref_aliases"] = counts.get("mut_ref_aliases", 0) + mut_ref_aliases(fn)
         counts["destructured"] += destructure_subst(fn, facts["types"])
-        counts["local_closures"] += inline_local_closures(fn, ctr)
+        lc_ = inline_local_closures(fn, ctr)
+        counts["local_closures"] += lc_
+        if lc_:
+            counts["flattened_blocks"] = counts.get("flattened_blocks", 0) + flatten_blocks(fn)
+            counts["mut_ref_aliases"] = counts.get("mut_ref_aliases", 0) + mut_ref_aliases(fn)
+            counts["move_aliases"] = counts.get("move_aliases", 0) + move_aliases(fn)
         counts["tuple_values"] = counts.get("tuple_values", 0) + split_tuple_values(fn)
     facts["_desugared"] = counts
     return counts
